@@ -72,6 +72,10 @@ type Dep struct {
 	Step     int    `json:"step,omitempty"`
 	IsStep   bool   `json:"is_step,omitempty"`
 	Reg      string `json:"reg,omitempty"` // source vchannel registered
+	// DropEvt: the drop-partition request for (EvtColl, EvtPart) has been handed to the event consumer
+	DropEvt bool `json:"drop_evt,omitempty"`
+	EvtColl int  `json:"evt_coll,omitempty"`
+	EvtPart int  `json:"evt_part,omitempty"`
 }
 
 type PPack struct {
